@@ -161,7 +161,10 @@ void scen_sort(hx::Desc& d) {
     std::vector<Item> v(n);
     for (int i = 0; i < n; ++i) v[i] = {i, i};
     if (shape == 1) for (int i = 0; i < n; ++i) v[i].key = n - i;
-    if (shape == 2 && n >= 2) { int p = (int)sim::draw((uint64_t)n - 1, "inv"); std::swap(v[p].key, v[p + 1].key); }
+    if (shape == 2 && n >= 2) {   // one inversion: every position class (near the front where pretests look, middle, end)
+        int p = sim::draw_bool("inv_front") ? (int)sim::draw(std::min<uint64_t>(16, (uint64_t)n - 1), "inv") : (int)sim::draw((uint64_t)n - 1, "inv");
+        std::swap(v[p].key, v[p + 1].key);
+    }
     if (shape == 3) for (int i = 0; i < n; ++i) v[i].key = (int)((i * 7919u) % 3);
     if (shape == 4) { uint64_t x = 88172645463325252ull + sim::draw(1000, "rs"); for (int i = 0; i < n; ++i) { x ^= x << 13; x ^= x >> 7; x ^= x << 17; v[i].key = (int)(x % 1000); } }
     d.add(hx::fmt("parallel_sort n=%d input=%s", n, sn[shape])); d.publish();
